@@ -287,6 +287,19 @@ func (it *Interp) harnessCall(name string, fn *ssa.Function, args []Value) (Valu
 			it.fail("assert", label, "assertion can fail", ev)
 		}
 		return Value{}, true
+	case "vand":
+		return it.and(args[0], args[1]), true
+	case "vor":
+		return it.or(args[0], args[1]), true
+	case "vite":
+		c := args[0]
+		if c.Ref == nil {
+			if c.Bits != 0 {
+				return args[1], true
+			}
+			return args[2], true
+		}
+		return fromTerm(it.tt.Ite(c.Ref.(*Term), it.term(args[1], 8), it.term(args[2], 8))), true
 	case "vreach":
 		if s, ok := args[0].Ref.(*Str); ok && s.Concrete() {
 			it.pr.tags = append(it.pr.tags, s.s)
